@@ -203,6 +203,25 @@ def run(ctx):
                     if eq[j][k] and not eq[i][k]:
                         ctx.fail({"kind": "eq-not-transitive"}, {"a": repr(built[i][0]), "b": repr(built[j][0]), "c": repr(built[k][0])},
                                  "== is not transitive")
+    # layouts extended in place after construction (what gemini.logical.get_spec does to the base spec): still equal objects hash equally
+    P = pool()
+    for extra_static, extra_cz, extra_fill in (({"b": P[2]}, set(), set()), ({}, {"a"}, set()), ({"b": P[3]}, {"b"}, {"a"}), ({}, set(), {"a"})):
+        direct, _ = make_layout(({"a": P[0], **extra_static}, set(extra_fill), set(extra_cz), set(), {}))
+        grown, _ = make_layout(({"a": P[0]}, set(), set(), set(), {}))
+        if direct is None or grown is None:
+            continue
+        grown.static_traps.update(extra_static)
+        grown.has_cz.update(extra_cz)
+        grown.fillable.update(extra_fill)
+        ctx.evaluations += 1
+        rep = {"a": "Layout built directly", "b": "equal Layout reached by extending the tables in place", "extra": [sorted(extra_static), sorted(extra_cz), sorted(extra_fill)]}
+        if not (direct == grown):
+            ctx.fail({"kind": "eq-vs-fields", "case": "extended in place"}, rep, "a layout extended in place differs from the layout built directly with the same five tables")
+        elif hash(direct) != hash(grown):
+            ctx.fail({"kind": "eq-but-hash-differs", "case": "extended in place"}, rep, "a layout extended in place equals the directly built one but hashes differently")
+        sa, sb = ArchSpec(layout=direct), ArchSpec(layout=grown)
+        if sa == sb and hash(sa) != hash(sb):
+            ctx.fail({"kind": "archspec-eq-hash", "case": "extended in place"}, rep, "equal ArchSpecs (one with a layout extended in place) hash differently")
     # ArchSpec level
     some = built[: min(12, n)]
     specs = [ArchSpec(layout=L, float_constants=fc, int_constants=ic) for _, L in some
